@@ -236,8 +236,11 @@ func checkPackage(u *gengotypes.Universe, P gengotypes.Package, r *proto.PkgRepo
 				}
 			}
 		}
+		// the answers must not depend on which questions were asked before
+		check("value", wantVal, P.MethodsOf(named, false))
 		check("all", wantAll, P.MethodsOf(named, true))
 		check("value", wantVal, P.MethodsOf(named, false))
+		check("all", wantAll, P.MethodsOf(named, true))
 	}
 
 	// ---- U3: imports -------------------------------------------------------
